@@ -42,6 +42,12 @@ PLAN = {
 }
 
 
+# defects whose fix commit no longer reverse-applies: (file, repaired text, defective text)
+MANUAL = {
+    "D10": ("include/fastscapelib/eroders/spl.hpp", "std::fabs(value - 1) <= std::numeric_limits<double>::epsilon()", "std::fabs(value) - 1 <= std::numeric_limits<double>::epsilon()"),
+}
+
+
 def sh(cmd, cwd=None, env=None, timeout=3600):
     r = subprocess.run(cmd, shell=True, cwd=cwd, env=env, stdout=subprocess.PIPE, stderr=subprocess.STDOUT, text=True, errors="replace", timeout=timeout)
     return r.returncode, r.stdout
@@ -90,23 +96,34 @@ def main():
         rc, o = sh("git -C %s worktree add -q --detach %s HEAD" % (REPO, wt))
         try:
             rc, o = sh("git -C %s show %s -- include | git apply -R" % (REPO, commit), cwd=wt)
+            if rc != 0 and d in MANUAL:
+                # later repairs rewrote the same lines: re-introduce the defect by hand
+                path, old, new = MANUAL[d]
+                fp = os.path.join(wt, path)
+                txt = open(fp).read()
+                if old in txt:
+                    open(fp, "w").write(txt.replace(old, new, 1))
+                    rc = 0
             if rc != 0:
                 report[d] = "reverse patch does not apply: " + o[-300:]
                 print(d, report[d])
                 continue
             for pid, name in targets:
-                env = dict(os.environ, VERIF_REPO=wt, VERIF_EVIDENCE_DIR="/tmp/verif_evidence_scratch")
-                rc, o = sh("bin/check.sh %s quick" % pid, cwd=VERIF, env=env)
-                viol = [l for l in o.splitlines() if l.startswith("VIOLATION")]
                 got = None
-                for l in viol:
-                    p = l.split("replay=", 1)[1].strip()
-                    if not os.path.exists(p) or "/corpus/" in p:
-                        continue
-                    # must pass on the repaired tree (/repo)
-                    rc2, o2 = sh("python3 bin/vcheck.py replay %s %s" % (pid, p), cwd=VERIF)
-                    if rc2 == 0:
-                        got = p
+                for vseed in ("1", "2", "3", "4", "5", "6"):
+                    env = dict(os.environ, VERIF_REPO=wt, VERIF_EVIDENCE_DIR="/tmp/verif_evidence_scratch", VERIF_SEED=vseed)
+                    rc, o = sh("bin/check.sh %s quick" % pid, cwd=VERIF, env=env)
+                    viol = [l for l in o.splitlines() if l.startswith("VIOLATION")]
+                    for l in viol:
+                        p = l.split("replay=", 1)[1].strip()
+                        if not os.path.exists(p) or "/corpus/" in p or p.endswith(".json"):
+                            continue
+                        # must pass on the repaired tree (/repo)
+                        rc2, o2 = sh("python3 bin/vcheck.py replay %s %s" % (pid, p), cwd=VERIF)
+                        if rc2 == 0:
+                            got = p
+                            break
+                    if got:
                         break
                 key = "%s/%s" % (d, pid)
                 if got:
